@@ -34,6 +34,9 @@ SYM_STR = ["a", "b", "cd", "x1"]
 SYM_TOKEN = ["a", "b", "ab", "x_1", "é", "7"]     # regex-safe tokens (C06)
 
 
+HASHCLASH = [-1, -2, 0, 2 ** 61 - 1, 1, 2 ** 61]      # CPython: hash(-1) == hash(-2), hash(0) == hash(2**61 - 1)
+
+
 def state_value(vc, i, perm=None):
     """perm: for vc == 'inject', tuple of hash values indexed by state id"""
     if vc in ("int", "binary"):
@@ -51,6 +54,8 @@ def state_value(vc, i, perm=None):
     if vc == "inject":
         h = perm[i] if perm is not None and i < len(perm) else i
         return K("s%d" % i, h)
+    if vc == "hashclash":
+        return HASHCLASH[i] if i < len(HASHCLASH) else i
     raise ValueError(vc)
 
 
@@ -63,7 +68,9 @@ def symbol_value(vc, j, token=False):
         return [1, "1", 2][j % 3]
     if vc == "tuple":
         return [("a", 1), ("a", 2), ("b",)][j % 3]
+    if vc == "hashclash":
+        return [-1, -2, 0, 2 ** 61 - 1][j % 4]
     return SYM_STR[j % len(SYM_STR)]
 
 
-FA_VALUE_CLASSES = ["int", "str", "merged", "mixed", "tuple", "inject", "binary", "reservedfa"]
+FA_VALUE_CLASSES = ["int", "str", "merged", "mixed", "tuple", "inject", "binary", "reservedfa", "hashclash"]
